@@ -3,11 +3,87 @@ sys.path.insert(0, os.path.dirname(os.path.dirname(os.path.abspath(__file__))))
 from symex import stubs, sched
 ID = "C20"
 PATTERNS = ["./net/ntske"]
-HARNESS_FILES = ["net/ntske/zz_verif_c20.go"]
+HARNESS_FILES = ["net/ntske/zz_verif_c20.go", "net/ntske/zz_verif_c20f.go"]
 K = "example.com/scion-time/net/ntske."
 INSTALL = [sched.install, stubs.install_stream]
 ENGINE_CFG = {"default_unwind": 8, "copy_bound": 24}
+REDIRECT = {
+    "crypto/tls.DialWithDialer": K + "c20Dial",
+    "(*crypto/tls.Conn).ConnectionState": K + "c20State",
+    "(*crypto/tls.Conn).Write": K + "c20Write",
+    "(*crypto/tls.Conn).Close": K + "c20Close",
+    "(*crypto/tls.ConnectionState).ExportKeyingMaterial": K + "c20Export",
+}
+EXTRA_ENTRIES = sorted(set(REDIRECT.values())) + [K + "c20RemoteAddrString"]
+
+
+def install_tls(E):
+    """TLS / net glue for the key-exchange client: dialing, the connection state, writing and the key
+    exporter are redirected to harness functions (arbitrary peers); the byte stream read from the
+    connection is the current peer's scripted stream; host:port helpers are evaluated on concrete strings."""
+    import z3
+    from symex.vals import Ptr, Iface, SV, Str, TRUE
+    I = E.intercepts
+    for src, dst in REDIRECT.items():
+        I[src] = (lambda dst: lambda E, name, args, ins: E.call_function(dst, args, (), ins))(dst)
+    new_reader = I["bufio.NewReader"]
+
+    def new_reader2(E, name, args, ins):
+        r = args[0]
+        if any(a[1] is not None and "tls.Conn" in a[1] for a in r.alts):
+            cur = E.load(E.global_ptr(K + "c20", E.prog.globals[K + "c20"]))
+            fields = [f["name"] for f in E.prog.type(E.prog.globals[K + "c20"]).elem().under().d["fields"]]
+            rd = cur.f[fields.index("cur")]
+            r = Iface(((TRUE, "*" + K + "c20reader", rd),))
+        return new_reader(E, name, [r], ins)
+    I["bufio.NewReader"] = new_reader2
+
+    # the client's own request bytes do not matter for what it accepts: not encoded
+    def msg_pack(E, name, args, ins):
+        from symex.vals import Opaque
+        return (Ptr.to(E.alloc(None, Opaque("bytes.Buffer"), name="request buffer")), Iface.nil())
+    I["(" + K + "ExchangeMsg).Pack"] = msg_pack
+    from symex.vals import Slice
+    I["(*bytes.Buffer).Bytes"] = lambda E, name, args, ins: Slice.nil()
+
+    def remote_addr(E, name, args, ins):
+        return Iface(((TRUE, "$tcpaddr", None),))
+    I["(*crypto/tls.Conn).RemoteAddr"] = remote_addr
+    I["$invoke:$tcpaddr.*"] = lambda E, payload, method, args, ins: E.call_function(K + "c20RemoteAddrString", [], (), ins)
+
+    def split_host_port(E, name, args, ins):
+        s = args[0]
+        if s.py is None:
+            raise Exception("net.SplitHostPort on a symbolic string")
+        i = s.py.rfind(":")
+        if i < 0:
+            return (E.str_const(""), E.str_const(""), E.err_token())
+        return (E.str_const(s.py[:i].strip("[]")), E.str_const(s.py[i + 1:]), Iface.nil())
+    I["net.SplitHostPort"] = split_host_port
+
+    def join_host_port(E, name, args, ins):
+        a, b = args
+        if a.py is None or b.py is None:
+            raise Exception("net.JoinHostPort on symbolic strings %r %r guard=%s" % (a, b, str(E.guard)[:200]))
+        return E.str_const(("[%s]:%s" if ":" in a.py else "%s:%s") % (a.py, b.py))
+    I["net.JoinHostPort"] = join_host_port
+    stubs.doc("crypto/tls, net host:port helpers (C20)", install_tls.__doc__)
+
+
+def fetch_native_feasible(E):
+    cs = []
+    for nm, inp in E.inputs.items():
+        base = nm.split("@")[0]
+        if base in ("peer.writefails", "peer.exportfails"):
+            import z3
+            cs.append(z3.Not(inp["term"]))
+    return cs
+
+
 HARNESSES = [
+    {"name": "fetch16", "fn": K + "VerifC20Fetch16", "install": [install_tls], "native_feasible": fetch_native_feasible, "replay_timeout": 60,
+     "cfg": {"default_unwind": 8, "copy_bound": 40, "str_bound": 16},
+     "bounds": "two consecutive key exchanges of one client against arbitrary peers: dial failure, ALPN mismatch, write/export failure, every byte stream of 0..16 bytes (<= 4 records) in every segmentation"},
     {"name": "readdata12", "fn": K + "VerifC20ReadData12", "bounds": "every byte stream of 0..12 bytes (<= 3 records), every segmentation into reads"},
     {"name": "readdata16", "fn": K + "VerifC20ReadData16", "bounds": "every byte stream of 0..16 bytes (<= 4 records), every segmentation", "thorough_only": True},
     {"name": "readdata24", "fn": K + "VerifC20ReadData24", "bounds": "every byte stream of 0..24 bytes (<= 6 records), every segmentation", "thorough_only": True},
@@ -15,5 +91,5 @@ HARNESSES = [
 ASSUMPTIONS = ["stream model: bufio.Reader.Read = one underlying read of arbitrary size; binary.Read / io.ReadFull by contract (exactly n bytes or EOF / ErrUnexpectedEOF)"]
 EXPLANATION = ""
 CLAIMED = True
-LEVEL_TEXT = "Bounded model checking of the real NTS-KE record reader ReadData against a reference parser written by cases in the harness, for every byte stream up to the tier bound and every segmentation of it into reads (position-indexed symbolic chunk sizes): success exactly for properly terminated streams without error record or unrecognised critical record, non-critical unknown records ignored, cookies exactly the cookie records in order, algorithm / port / server from their records."
-LEVEL_NOTE = "streams of <= 12 (quick) / 24 bytes (<= 3 / 6 records); stream model: bufio.Reader.Read = one underlying read of arbitrary size, binary.Read / io.ReadFull by contract; NOT built: Fetcher.exchangeKeys / FetchData (ALPN, algorithm and cookie checks, exporter arguments, failure-leaves-no-state - hand-confirmed finding F7 stays open), the NTS-KE server message, address selection for the following NTP request."
+LEVEL_TEXT = "Bounded model checking of the real NTS-KE record reader ReadData against a reference parser written by cases in the harness, for every byte stream up to the tier bound and every segmentation of it into reads (position-indexed symbolic chunk sizes), and of the key-exchange client over two consecutive exchanges with arbitrary peers (success only for ntske/1 + AES-SIV-CMAC-256 + >= 1 cookie + properly terminated stream; pool = cookies issued; RFC 8915 exporter label and contexts; defaults for server and port; a failed exchange leaves nothing behind): success exactly for properly terminated streams without error record or unrecognised critical record, non-critical unknown records ignored, cookies exactly the cookie records in order, algorithm / port / server from their records."
+LEVEL_NOTE = "streams of <= 12 (quick) / 24 bytes (<= 3 / 6 records); stream model: bufio.Reader.Read = one underlying read of arbitrary size, binary.Read / io.ReadFull by contract; the key-exchange client (Fetcher.FetchData / exchangeKeys / dialTLS / ExportKeys) runs against scripted peers through redirected TLS functions and is replayed against a real TLS 1.3 server on loopback; NOT built: the QUIC/SCION transport, the NTS-KE server message, the address selection for the following NTP request."
